@@ -3,6 +3,7 @@ import TaRs.Lemmas.Core.AverageTrueRange
 import TaRs.Gen.AverageTrueRange
 import TaRs.Lemmas.ExponentialMovingAverage
 import TaRs.Lemmas.TrueRange
+import TaRs.Lemmas.Total.AverageTrueRange
 namespace TaRs.Gen.AverageTrueRange
 open TaRs TaRs.Rs
 variable {F : Type} [Scalar F]
@@ -26,19 +27,5 @@ theorem nextBar_eq (s : AverageTrueRange F) (b : Bar F) :
   unfold nextBar
   try simp only [gen_helper]
   simp [TrueRange.nextBar_eq, ExponentialMovingAverage.next_eq]
-
-theorem next_total (s : AverageTrueRange F) (x : F) (h : WF s) :
-    ∃ r, s.next x = some r ∧ WF r.1 ∧ r.1.period_fn = s.period_fn := by
-  obtain ⟨r, hr, hw, hp⟩ := ExponentialMovingAverage.next_total s.ema (TrueRange.out s.true_range x) h.ema
-  rw [ExponentialMovingAverage.next_eq] at hr
-  cases hr
-  exact ⟨_, next_eq s x, ⟨hw⟩, hp⟩
-
-theorem nextBar_total (s : AverageTrueRange F) (b : Bar F) (h : WF s) :
-    ∃ r, s.nextBar b = some r ∧ WF r.1 ∧ r.1.period_fn = s.period_fn := by
-  obtain ⟨r, hr, hw, hp⟩ := ExponentialMovingAverage.next_total s.ema (TrueRange.outBar s.true_range b) h.ema
-  rw [ExponentialMovingAverage.next_eq] at hr
-  cases hr
-  exact ⟨_, nextBar_eq s b, ⟨hw⟩, hp⟩
 
 end TaRs.Gen.AverageTrueRange
